@@ -59,8 +59,9 @@ Section Generic.
   Definition contour := list P.
 
   (* ir::Glyph at one location.  g_ovf is has_overflowing_2x2_transforms: it is
-     computed by Glyph::new and NOT recomputed by code that edits sources in
-     place (flatten_glyph). *)
+     computed by Glyph::new and not recomputed by code that edits sources in
+     place (prune_missing_components; flatten_glyph rebuilds the glyph since the
+     repair of the flatten overflow). *)
   Record glyph := mkGlyph {
     g_contours : list contour;
     g_comps : list (name * T);
@@ -253,12 +254,25 @@ Section Generic.
             end
         end
     end.
+  (* After the walk the glyph is rebuilt (GlyphBuilder::from(glyph).build(), which
+     recomputes has_overflowing_2x2_transforms); composing transforms can leave
+     the F2Dot14 range although every single one was inside, and then the glyph
+     is decomposed like one whose own components overflow.  The flag of the
+     result: contours passed over by the walk, or the visited test of the
+     decomposition fired. *)
   Definition flatten_glyph (fuel : nat) (F : font) (g : glyph) : option (glyph * bool) :=
     match g_comps g with
     | [] => Some (g, false)
     | cs =>
         match flat fuel F cs [] false with
-        | Some (s, lost) => Some (mkGlyph (g_contours g) s (g_adv g) (g_export g) (g_ovf g), lost)
+        | Some (s, lost) =>
+            let g1 := glyph_new (g_contours g) s (g_adv g) (g_export g) in
+            if g_ovf g1 then
+              match decompose fuel F g1 with
+              | Some (g2, dup) => Some (g2, lost || dup)
+              | None => None
+              end
+            else Some (g1, lost)
         | None => None
         end
     end.
@@ -446,7 +460,7 @@ Definition qfont := font pt aff.
 Definition q_resolve := resolve pt aff aff_act.
 Definition q_process := process pt aff aff_mul aff_id aff_act aff_neg aff_ovf aff_nonid vary aff_eqb.
 Definition q_decompose := decompose pt aff aff_mul aff_id aff_act aff_neg aff_ovf aff_eqb.
-Definition q_flatten := flatten_glyph pt aff aff_mul.
+Definition q_flatten := flatten_glyph pt aff aff_mul aff_id aff_act aff_neg aff_ovf aff_eqb.
 Definition q_gsem := gsem pt aff aff_act.
 Definition q_inline := inline_glyph pt aff aff_mul aff_act aff_neg aff_ovf.
 
